@@ -120,6 +120,10 @@ class YamlDocument(HierDictDocument):
         self.in_kwargs['Loader'] = loader
         self.out_kwargs['Dumper'] = dumper
 
+        # members are written in declaration order like in the other protocols;
+        # yaml.dump sorts map keys alphabetically unless told not to
+        self.out_kwargs.setdefault('sort_keys', False)
+
         loader.add_constructor('tag:yaml.org,2002:python/unicode',
                                                                 _unicode_loader)
 
